@@ -44,6 +44,9 @@ def make_param(eng, name, spec):
         return s
     if isinstance(spec, tuple) and spec and spec[0] == 'const':
         return spec[1]
+    if isinstance(spec, tuple) and spec and spec[0] == 'symdict':
+        from .symdict import SymDict
+        return SymDict(spec[1], spec[2], name=name)
     if callable(spec):
         return spec(eng, name)
     raise ValueError('unknown param spec %r' % (spec,))
@@ -74,8 +77,12 @@ def model_value(model, v, depth=0):
     if isinstance(v, GenResult):
         return model_value(model, v.items)
     if isinstance(v, E.Obj):
-        return {'__obj__': v.cls, 'attrs': {k: model_value(model, x) for k, x in v.attrs.items()
-                                            if not k.startswith('_vc')}}
+        d = {'__obj__': v.cls, 'attrs': {k: model_value(model, x) for k, x in v.attrs.items()
+                                         if not k.startswith('_vc')}}
+        if '_vc_tags' in v.attrs:
+            d['attrs']['_vc_tags'] = {t: [model_value(model, p), model_value(model, val)]
+                                      for t, (p, val) in v.attrs['_vc_tags'].items()}
+        return d
     return v
 
 
@@ -101,7 +108,7 @@ def solve(pc, goal, timeout_ms, want_model=True):
     s.set('timeout', timeout_ms)
     for c in pc:
         s.add(c)
-    s.add(z3.Not(goal))
+    s.add(z3.Not(strip_foralls(goal)))
     r = s.check()
     dt = time.time() - t0
     if r == z3.unsat:
@@ -119,6 +126,27 @@ def solve(pc, goal, timeout_ms, want_model=True):
             return 'sat', s.model(), 'cvc5+z3', time.time() - t0
         return 'sat', None, 'cvc5', time.time() - t0
     return 'unknown', None, 'z3+cvc5', dt + dt2
+
+
+_skolem_ctr = [0]
+
+
+def strip_foralls(goal):
+    """A goal  forall x. P(x)  is proved by proving P(c) for fresh constants c (same for the consequent of an
+    implication and the conjuncts of a conjunction): removes quantifier handling from the refutation query."""
+    if z3.is_quantifier(goal) and goal.is_forall():
+        consts = []
+        for i in range(goal.num_vars()):
+            _skolem_ctr[0] += 1
+            consts.append(z3.Const('%s!sk%d' % (goal.var_name(i), _skolem_ctr[0]), goal.var_sort(i)))
+        body = z3.substitute_vars(goal.body(), *reversed(consts))
+        return strip_foralls(body)
+    if z3.is_and(goal):
+        return z3.And(*[strip_foralls(c) for c in goal.children()])
+    if z3.is_implies(goal):
+        a, b = goal.children()
+        return z3.Implies(a, strip_foralls(b))
+    return goal
 
 
 def cvc5_check(solver, timeout_s):
@@ -179,7 +207,7 @@ class Contract:
                  yield_checks=None, cases=None, result=None, callees=(), name=None, setup=None, replay=None,
                  replay_args=None, assumptions=(), self_obj=None, timeout_ms=None, crosscheck=None,
                  call_raises_exact=False, exit_checks=None, frame_locals=False, pre_state=None,
-                 replay_ensures=None, bounded=None):
+                 replay_ensures=None, bounded=None, tiers=None, max_paths=4000):
         self.prop = prop
         self.target = target
         self.relpath, self.qualname = target.split('::')
@@ -205,6 +233,8 @@ class Contract:
         self.pre_state = pre_state
         # clauses evaluated only natively during replay (computable restatements of per-iteration obligations)
         self.replay_ensures = dict(replay_ensures or {})
+        self.tiers = tiers
+        self.max_paths = max_paths
         self.bounded = bounded     # text of the bound when this unit is a bounded stand-in (not counted as proved)
 
     @property
@@ -313,6 +343,7 @@ class Verifier:
         inputs_repr = None
         while True:
             eng.reset_path(schedule)
+            eng.witness = {}
             eng.module_value_cache = {}
             E._fresh_counter = E.itertools.count()   # deterministic names per path
             params = {}
@@ -325,7 +356,11 @@ class Verifier:
                 case_yield_checks = shapes.pop('__yield_checks__', {})
                 for name, spec in shapes.items():
                     params[name] = make_param(eng, name, spec)
-                env = dict(params)
+                a_ = fref.node.args
+                fn_params = {x.arg for x in a_.posonlyargs + a_.args + a_.kwonlyargs}
+                env = eng.bind_args(fref.node, [], {k: v for k, v in params.items() if k in fn_params}, None,
+                                    fref.mod, None)
+                env.update({k: v for k, v in params.items() if k not in fn_params})
                 for k, v in params.items():
                     env['old!' + k] = v
                 fr = Frame(c.qualname, fref.mod, env)
@@ -396,14 +431,15 @@ class Verifier:
             for ob in eng.obligations:
                 ob.info['params'] = params
                 ob.info['case'] = ci
+                ob.info['witness'] = dict(eng.witness)
                 if ob.name not in groups:
                     groups[ob.name] = []
                     order.append(ob.name)
                 groups[ob.name].append(ob)
             res['trusted'] = sorted(set(res['trusted']) | eng.trusted_used)
             res['contracts_used'] = sorted(set(res['contracts_used']) | eng.used_contracts)
-            if npaths > 4000:
-                raise Unsupported('path explosion (>4000 paths) in %s' % c.uid)
+            if npaths > c.max_paths:
+                raise Unsupported('path explosion (>%d paths) in %s' % (c.max_paths, c.uid))
             if not eng.next_schedule():
                 break
             schedule = eng.schedule
@@ -467,6 +503,9 @@ class Verifier:
         params = ob.info.get('params', {})
         try:
             inputs = {k: model_value(model, v) for k, v in params.items()}
+            wit = ob.info.get('witness') or {}
+            if wit:
+                inputs['witness'] = {k: model_value(model, v) for k, v in wit.items()}
         except Exception as e:
             return {'inputs': None, 'note': 'model not concretisable: %s' % e}
         out = {'inputs': jsonable(inputs), 'info': {k: jsonable(v) if not isinstance(v, (Sym, SymSeq, tuple, list, dict, GenResult)) else None
@@ -515,8 +554,6 @@ def import_real(relpath, qualname):
 def call_real(c, inputs):
     """Run the real function of contract c on concrete inputs. -> ('return', value) | ('raise', name, msg)"""
     import types
-    if c.replay is not None:
-        return c.replay(inputs)
     fn = import_real(c.relpath, c.qualname)
     names = list(c.params.keys())
     if c.replay_args is not None:
@@ -582,6 +619,17 @@ def replay_counterexample(c, ob_rec):
     inputs = cex.get('_raw_inputs')
     if inputs is None:
         return {'status': 'no-input', 'note': cex.get('note', 'no model')}
+    if c.replay is not None:
+        try:
+            r = c.replay(inputs, ob_rec.get('clause', ''))
+            r.setdefault('inputs', jsonable(inputs))
+            return r
+        except Exception as e:
+            return {'status': 'no-input', 'note': 'custom replay failed: %s' % e, 'trace': traceback.format_exc(),
+                    'inputs': jsonable(inputs)}
+    if c.setup is not None:
+        return {'status': 'no-input', 'inputs': jsonable(inputs),
+                'note': 'contract stubs externals and defines no replay harness: counter-model reported without a real run'}
     try:
         out = call_real(c, inputs)
     except Exception as e:
